@@ -144,12 +144,33 @@ def trun(rng, count=None) -> bytes:
     return full(b'trun', v, flags, body)
 
 
+
+TEXTLIKE = [b'0x', b'0X', b'hx=', b'b64=', b'{"', b'<?xml ', b'urn:', b'\x00', b'\xff\xfe', b'\xef\xbb\xbf']
+
+
+def blob(rng, n: int) -> bytes:
+    """n opaque payload bytes. Mostly random; sometimes bytes that *look like* something a lenient reader
+    might interpret (ASCII hex with a 0x prefix, base64 text, key=value, all zero / all ones): an opaque
+    field has to come back byte for byte whatever it holds."""
+    r = rng.random()
+    if n == 0 or r < 0.7:
+        return rng.randbytes(n)
+    if r < 0.85:
+        pre = rng.choice(TEXTLIKE)[:n]
+        alphabet = rng.choice([b'0123456789abcdef', b'0123456789ABCDEF', b'ghijklmnopqrstuv -_',
+                               b'ABCDEFGHIJKLMNOPQRSTUVWXYZabcdefghijklmnopqrstuvwxyz0123456789+/='])
+        return pre + bytes(rng.choice(alphabet) for _ in range(n - len(pre)))
+    if r < 0.93:
+        return bytes([rng.choice([0, 0xFF, 0x30, 0x20])]) * n
+    return (rng.choice(TEXTLIKE) + rng.randbytes(n))[:n]
+
+
 def cenc_group(rng, n: int, iv_size: int, piff: bool = False) -> list[bytes]:
     """saiz + saio + senc for n samples (consistent with each other)"""
     subs = rng.random() < 0.5
     entries = []
     for _ in range(n):
-        e = rng.randbytes(iv_size)
+        e = blob(rng, iv_size)
         if subs:
             k = rng.choice([0, 1, 2, 3]) if rng.random() < 0.3 else rng.choice([1, 2])
             e += struct.pack('>H', k) + b''.join(struct.pack('>HI', bits(rng, 16), bits(rng, 32)) for _ in range(k))
@@ -176,7 +197,7 @@ def cenc_group(rng, n: int, iv_size: int, piff: bool = False) -> list[bytes]:
 def tenc(rng) -> tuple[bytes, int, bytes]:
     v = rng.randrange(2)
     iv = rng.choice([8, 16])
-    kid = rng.randbytes(16)
+    kid = blob(rng, 16)
     second = bits(rng, 8) if v else 0
     return full(b'tenc', v, 0, bytes([0, second, 1, iv]) + kid), iv, kid
 
@@ -187,8 +208,8 @@ def pssh(rng) -> bytes:
                        bytes.fromhex('edef8ba979d64acea3c827dcd51d21ed'), rng.randbytes(16)])
     if v:
         n = rng.choice([0, 1, 2, 5])
-        body += struct.pack('>I', n) + b''.join(rng.randbytes(16) for _ in range(n))
-    data = rng.randbytes(rng.choice([0, 1, 20, 300]))
+        body += struct.pack('>I', n) + b''.join(blob(rng, 16) for _ in range(n))
+    data = blob(rng, rng.choice([0, 1, 20, 300, 10, 11]))
     return full(b'pssh', v, 0, body + struct.pack('>I', len(data)) + data)
 
 
@@ -208,7 +229,7 @@ def emsg(rng) -> bytes:
     v = rng.randrange(2)
     scheme = rng.choice([b'urn:dash-live:pingpong:2022', b'urn:scte:scte35:2013:bin', b'', 'urn:x:\u00e9'.encode()]) + b'\0'
     value = rng.choice([b'', b'0', b'1', b'value with spaces']) + b'\0'
-    data = rng.randbytes(rng.choice([0, 4, 33]))
+    data = blob(rng, rng.choice([0, 4, 33, 10]))
     if v == 0:
         body = scheme + value + struct.pack('>IIII', bits(rng, 32) or 1, bits(rng, 32), bits(rng, 32), bits(rng, 32))
     else:
@@ -242,11 +263,11 @@ def vttc(rng) -> bytes:
 
 def unknown(rng, large=False) -> bytes:
     typ = rng.choice([b'free', b'skip', b'zzzz', b'abcd', b'prft'])
-    return box(typ, rng.randbytes(rng.choice([0, 1, 8, 100])), large=large)
+    return box(typ, blob(rng, rng.choice([0, 1, 8, 100])), large=large)
 
 
 def unknown_uuid(rng) -> bytes:
-    return box(b'uuid', rng.randbytes(rng.choice([0, 12])), usertype=rng.randbytes(16), large=rng.random() < 0.3)
+    return box(b'uuid', blob(rng, rng.choice([0, 12])), usertype=rng.randbytes(16), large=rng.random() < 0.3)
 
 
 def desc(tag: int, payload: bytes, pad4: bool) -> bytes:
